@@ -81,6 +81,7 @@ inductive Fault
   | send      -- the request is lost: stream.Send fails, or Send succeeds, the request never reaches
               -- the follower and Recv fails — the same for both sides' state
   | recv      -- request delivered and handled, stream.Recv fails
+  | put       -- request delivered, the FOLLOWER's queue.Put fails (storage fault on the follower), answer delivered
   deriving Repr, DecidableEq
 
 /-- the shape of the comparison that guards `ResetAppendIndex` in IsReady.
@@ -96,8 +97,10 @@ structure Img where
   L : Log
   cons : Int
   gack : Int
+  born : Bool
   cons2 : Int
   gack2 : Int
+  born2 : Bool
   deriving Repr, DecidableEq
 
 structure St where
@@ -111,7 +114,8 @@ structure St where
   live : Bool        -- stateMgr.GetLiveNode(follower)
   susp : Bool        -- remoteReplicator.isSuspend (the replica loop is parked on `<-r.suspend`)
   dz : Bool          -- ghost: the OTHER follower's handshake moved this group (ResetAppendIndex) while this channel was ready
-  stopped : Bool     -- IsExpire stopped this group and removed its replicator
+  stopped : Bool     -- the group is not registered on the leader (never created, or stopped by IsExpire): no replicator
+  born : Bool        -- the group's directory exists on the leader
   -- follower B
   cons2 : Int
   gack2 : Int
@@ -122,38 +126,45 @@ structure St where
   susp2 : Bool
   dz2 : Bool
   stopped2 : Bool
+  born2 : Bool
   imgs : List Img    -- saved images of the leader's partition directory, newest first
   gone : Bool        -- IsExpire reported the partition expired (writeAheadLog.destroy removes it)
   deriving Repr, DecidableEq
 
+/-- the partition as `BuildReplicaForLeader(leader, [A])` leaves it on an empty directory: follower A's
+group exists, follower B has not been added yet -/
 def St.init : St :=
   { L := Log.empty,
     cons := -1, gack := -1, F := Log.empty, chan := .init, stream := .none, live := true, susp := false,
-    dz := false, stopped := false,
+    dz := false, stopped := false, born := true,
     cons2 := -1, gack2 := -1, F2 := Log.empty, chan2 := .init, stream2 := .none, live2 := true, susp2 := false,
-    dz2 := false, stopped2 := false,
+    dz2 := false, stopped2 := true, born2 := false,
     imgs := [], gone := false }
 
 def Img.swap (i : Img) : Img :=
-  { L := i.L, cons := i.cons2, gack := i.gack2, cons2 := i.cons, gack2 := i.gack }
+  { L := i.L, cons := i.cons2, gack := i.gack2, born := i.born2, cons2 := i.cons, gack2 := i.gack, born2 := i.born }
 
 /-- exchange the roles of follower A and follower B -/
 def St.swap (s : St) : St :=
   { L := s.L,
     cons := s.cons2, gack := s.gack2, F := s.F2, chan := s.chan2, stream := s.stream2, live := s.live2,
-    susp := s.susp2, dz := s.dz2, stopped := s.stopped2,
+    susp := s.susp2, dz := s.dz2, stopped := s.stopped2, born := s.born2,
     cons2 := s.cons, gack2 := s.gack, F2 := s.F, chan2 := s.chan, stream2 := s.stream, live2 := s.live,
-    susp2 := s.susp, dz2 := s.dz, stopped2 := s.stopped,
+    susp2 := s.susp, dz2 := s.dz, stopped2 := s.stopped, born2 := s.born,
     imgs := s.imgs.map Img.swap, gone := s.gone }
 
 /-! ### follower side (app/storage/rpc/replica.go + partition.go) -/
 
 /-- `partition.ReplicaLog` as called by `ReplicaHandler.Replica`: returns the new log and
 `resp.AckIndex` (`resp.ReplicaIndex` is always the offered index).
-`appendIdx := AppendedSeq()+1; if replicaIdx != appendIdx { return appendIdx }; Put; return appendIdx` -/
-def replicaLog (F : Log) (idx : Int) (m : Msg) : Log × Int :=
+`appendIdx := AppendedSeq()+1; if replicaIdx != appendIdx { return appendIdx, nil };
+if err := Put(msg); err != nil { return -1, err }; return appendIdx, nil` — the handler copies the
+first component into `resp.AckIndex` whatever the error is. `putFails`: the follower's `queue.Put` fails. -/
+def replicaLog (F : Log) (idx : Int) (m : Msg) (putFails : Bool) : Log × Int :=
   let appendIdx := F.app + 1
-  if idx ≠ appendIdx then (F, appendIdx) else (F.put m, appendIdx)
+  if idx ≠ appendIdx then (F, appendIdx)
+  else if putFails then (F, -1)
+  else (F.put m, appendIdx)
 
 /-- `partition.ReplicaAckIndex` -/
 def replicaAckIndex (F : Log) : Int := F.app
@@ -251,11 +262,11 @@ inductive Out
 def replicaSend (s : St) (idx : Int) (m : Msg) (f : Fault) : St × Out :=
   if s.stream ≠ .up ∨ f = .send then ({ s with chan := .failure }, .sendfail)
   else
-    let (F', ackIdx) := replicaLog s.F idx m      -- resp.ReplicaIndex = idx, resp.AckIndex = ackIdx
+    let (F', ackIdx) := replicaLog s.F idx m (decide (f = .put))   -- resp.ReplicaIndex = idx, resp.AckIndex = ackIdx
     let s := { s with F := F' }
     if f = .recv then ({ s with chan := .failure }, .recvfail)
     else if ackIdx = idx then (ackGroup s ackIdx, .acked)
-    else (s, .mismatch)
+    else ({ s with dz := true }, .mismatch)   -- state stays `ready`; ghost: the channel is out of step until the next handshake
 
 /-- `partition.replica` after `IsReady() && Connect()` succeeded: Consume, GetMessage, Replica -/
 def sendPhase (s : St) (f : Fault) : St × Out :=
@@ -280,16 +291,18 @@ def liftAck (gack qack : Int) : Int := if gack < qack then qack else gack
 def liftCons (cons gack' : Int) : Int := if cons < gack' then gack' else cons
 
 /-- re-opening the leader's partition directory; new `remoteReplicator`s start in `init` with no
-stream; every group directory is loaded again -/
+stream; every group directory that exists in the image is loaded again and gets its replicator -/
 def reopenLeader (s : St) (im : Img) : St :=
   { s with L := im.L,
-           cons := liftCons im.cons (liftAck im.gack im.L.ack), gack := liftAck im.gack im.L.ack,
-           cons2 := liftCons im.cons2 (liftAck im.gack2 im.L.ack), gack2 := liftAck im.gack2 im.L.ack,
-           chan := .init, stream := .none, susp := false, dz := false, stopped := false,
-           chan2 := .init, stream2 := .none, susp2 := false, dz2 := false, stopped2 := false }
+           cons := if im.born then liftCons im.cons (liftAck im.gack im.L.ack) else -1,
+           gack := if im.born then liftAck im.gack im.L.ack else -1,
+           cons2 := if im.born2 then liftCons im.cons2 (liftAck im.gack2 im.L.ack) else -1,
+           gack2 := if im.born2 then liftAck im.gack2 im.L.ack else -1,
+           chan := .init, stream := .none, susp := false, dz := false, stopped := !im.born, born := im.born,
+           chan2 := .init, stream2 := .none, susp2 := false, dz2 := false, stopped2 := !im.born2, born2 := im.born2 }
 
 def St.image (s : St) : Img :=
-  { L := s.L, cons := s.cons, gack := s.gack, cons2 := s.cons2, gack2 := s.gack2 }
+  { L := s.L, cons := s.cons, gack := s.gack, born := s.born, cons2 := s.cons2, gack2 := s.gack2, born2 := s.born2 }
 
 /-- `fanOutQueue.Sync` + `queue.GC`: the queue's ack becomes the smallest ack of the groups that
 are still registered (start value: appended), when that is ≥ 0; no group at all: nothing -/
@@ -331,6 +344,7 @@ inductive Ev
   | lrestart                  -- leader restarts on its current directory
   | offline (w : Who)         -- follower disappears from the live nodes
   | online (w : Who) (f : Fault) -- follower (re)appears; a parked loop resumes its replica call
+  | join (w : Who)            -- BuildReplicaForLeader(leader, [w]): add follower w to the partition (or re-add it after IsExpire stopped it)
   | gc                        -- log.Sync(); log.Queue().GC() (IsExpire on a family inside its write window)
   | expire                    -- IsExpire on a family past its write window
   deriving Repr, DecidableEq
@@ -348,6 +362,17 @@ def peerEv (cfg : Cfg) (s : St) : Ev → St × Out
   | .frestart _ => ({ s with stream := brokenStream s.stream }, .idle)
   | .flose _ => ({ s with F := Log.empty, stream := brokenStream s.stream }, .idle)
   | .offline _ => ({ s with live := false }, .idle)
+  | .join _ =>
+    -- buildReplica: an existing replicator is kept; else GetOrCreateConsumerGroup + a new remoteReplicator.
+    -- NewConsumerGroup: an existing group directory is loaded with the re-open lifts, a brand-new group
+    -- starts with consumed = acknowledged = the QUEUE's acknowledged sequence
+    if s.stopped = false then (s, .idle)
+    else if s.born then
+      ({ s with cons := liftCons s.cons (liftAck s.gack s.L.ack), gack := liftAck s.gack s.L.ack,
+                stopped := false, chan := .init, stream := .none, susp := false, dz := false }, .idle)
+    else
+      ({ s with cons := s.L.ack, gack := s.L.ack, born := true,
+                stopped := false, chan := .init, stream := .none, susp := false, dz := false }, .idle)
   | .online _ f =>
     let s := { s with live := true }
     if s.stopped then (s, .noreplicator)
@@ -360,6 +385,7 @@ def Ev.who : Ev → Option Who
   | .flose w => some w
   | .offline w => some w
   | .online w _ => some w
+  | .join w => some w
   | _ => none
 
 def next (cfg : Cfg) (s : St) (e : Ev) : St × Out :=
